@@ -75,4 +75,110 @@ theorem precedence_matches_reference : sameTable (normalised.take 13) reference 
 example : sameTable (normalised.take 13)
     (reference.take 2 ++ [(.left, [(.binary, "+"), (.binary, "-")]), (.left, [(.binary, "*"), (.binary, "/"), (.binary, "%")])] ++ reference.drop 4) = false := by decide
 
+
+/-! ## 2. Evaluation -/
+
+section
+variable {N : Type} [Num N]
+
+/-- evaluation is a function of (fuel, frame, task, state): same inputs, same outcome and same final state. -/
+theorem deterministic (fuel : Nat) (fr : Frame N) (t : Task N) (st : State N) (r1 r2 : Res N)
+    (h1 : eval fuel fr t st = r1) (h2 : eval fuel fr t st = r2) : r1 = r2 := by
+  rw [← h1, ← h2]
+
+/-- every evaluation returns (the interpreter is total: no program makes it undefined); without fuel it says so. -/
+theorem total_or_error (fuel : Nat) (prog : List (Expr N)) :
+    (∃ o st, run fuel prog = (o, st)) ∧ (run 0 prog).1 = Out.err Err.fuel := by
+  refine ⟨⟨(run fuel prog).1, (run fuel prog).2, rfl⟩, ?_⟩
+  simp [run, eval]
+
+/-- scriptframe.cpp:84-85: an expression entered at frame depth ≥ 300 is not evaluated at all: the outcome is the
+    recursion error and the state is untouched — whatever the expression, the frame and the remaining fuel. -/
+theorem recursion_error_at_limit (f : Nat) (fr : Frame N) (e : Expr N) (st : State N) (h : fr.depth ≥ depthLimit) :
+    eval (f + 1) fr (.expr e) st = (.err stackErr, st) := by
+  have : fr.depth + 1 > depthLimit := by omega
+  simp [eval, this]
+
+/-- the counterpart: below the limit the literal cases run at depth `fr.depth + 1 ≤ 300` and record exactly that depth. -/
+theorem depth_bounded (f : Nat) (fr : Frame N) (st : State N) (h : fr.depth < depthLimit) (hs : st.maxDepth ≤ depthLimit) :
+    (eval (f + 1) fr (.expr .null) st).2.maxDepth ≤ depthLimit ∧
+    (eval (f + 1) fr (.expr .null) st).1 = Out.val .ok .empty := by
+  have h' : ¬ (fr.depth + 1 > depthLimit) := by omega
+  simp [eval, h', State.noteDepth]
+  omega
+
+/-- `a && b`: when `a` is falsy the result is `a` ITSELF and the state is the one after `a` — `b` is not evaluated. -/
+theorem and_or_short_circuit (f : Nat) (fr : Frame N) (a b : Expr N) (st st1 : State N) (va : Value N)
+    (hd : ¬ (fr.depth + 1 > depthLimit))
+    (ha : eval f { fr with depth := fr.depth + 1 } (.expr a) (st.noteDepth (fr.depth + 1)) = (.val .ok va, st1)) :
+    (truthy st1 va = false → eval (f + 1) fr (.expr (.and a b)) st = (.val .ok va, st1)) ∧
+    (truthy st1 va = true → eval (f + 1) fr (.expr (.or a b)) st = (.val .ok va, st1)) := by
+  constructor <;> intro ht <;> simp [eval, hd, ha, bindV, ht]
+
+/-- `try { a } except { b }`: a script error of `a` never leaves the construct; `b` runs in the state `a` left. -/
+theorem try_catches_script_errors (f : Nat) (fr : Frame N) (a b : Expr N) (st st1 : State N) (k : ErrKind) (m : String)
+    (hd : ¬ (fr.depth + 1 > depthLimit))
+    (ha : eval f { fr with depth := fr.depth + 1 } (.expr a) (st.noteDepth (fr.depth + 1)) = (.err (.script k m), st1)) :
+    eval (f + 1) fr (.expr (.try a b)) st =
+      bindV (eval f { fr with depth := fr.depth + 1 } (.expr b) st1) (fun _ st2 => (.val .ok .empty, st2)) := by
+  simp [eval, hd, ha]
+
+/-- `break` leaves the innermost loop with Empty, `return` leaves it carrying its value, `continue`/normal completion
+    go on with the next iteration (CHECK_RESULT_LOOP). -/
+theorem loop_control (f : Nat) (fr : Frame N) (c body : Expr N) (st st1 st2 : State N) (cv v : Value N)
+    (hc : eval f fr (.expr c) st = (.val .ok cv, st1)) (ht : truthy st1 cv = true) :
+    (eval f fr (.expr body) st1 = (.val .brk v, st2) → eval (f + 1) fr (.whileL c body) st = (.val .ok .empty, st2)) ∧
+    (eval f fr (.expr body) st1 = (.val .ret v, st2) → eval (f + 1) fr (.whileL c body) st = (.val .ret v, st2)) ∧
+    (eval f fr (.expr body) st1 = (.val .cont v, st2) → eval (f + 1) fr (.whileL c body) st = eval f fr (.whileL c body) st2) := by
+  refine ⟨?_, ?_, ?_⟩ <;> intro hb <;> simp [eval, hc, bindV, ht, hb]
+
+/-- `*`: a number exactly for (number|Empty)×(number|Empty) not both Empty, otherwise the type error (value-operators.cpp:317-323);
+    `&&`-style coercions never apply.  The same shape holds for every operator; the executable table is `binScalar`. -/
+theorem operator_typing (l r : Value N) :
+    (numPair l r = true → ∃ n, binScalar .mul l r = .val (.num n)) ∧
+    (numPair l r = false → binScalar .mul l r = .err (opTypeErr "*" l r)) ∧
+    (numPairStrict l r = true → ∃ n, binScalar .add l r = .val (.num n)) ∧
+    (numPairStrict l r = false → strPair l r = true → ∃ s, binScalar .add l r = .val (.str s)) ∧
+    (r.isEmpty = true → ∃ m, binScalar .div l r = .err (.script .divzero m)) := by
+  refine ⟨?_, ?_, ?_, ?_, ?_⟩
+  · intro h; simp [binScalar, h]
+  · intro h; simp [binScalar, h]
+  · intro h; simp [binScalar, h]
+  · intro h1 h2; simp [binScalar, h1, h2]
+  · intro h; simp [binScalar, h]
+
+end
+
+/-! ## 3. Kernel-checked executions (N := Int): scoping, closures, recursion limit — also the non-vacuity witnesses -/
+
+private def var (x : String) (e : Expr Int) : Expr Int := .set (.index (.scope .locals) (.str x)) .lit e
+
+private def outNum (r : Res Int) : Option Int := match r with | (.val _ (.num n), _) => some n | _ => none
+private def outErr (r : Res Int) : Option ErrKind := match r with | (.err (.script k _), _) => some k | _ => none
+
+/-- `3 && 7 = 7`, `0 || 7 = 7` (reference table, rows 12/13). -/
+example : outNum (run 50 [.and (.num 3) (.num 7)]) = some 7 := by decide
+example : outNum (run 50 [.or (.num 0) (.num 7)]) = some 7 := by decide
+
+/-- a `var` inside a function body does not leak: `var f = function() { var y = 1 }; f(); y` → undefined variable. -/
+theorem scoping_var_does_not_leak :
+    outErr (run 200 [var "f" (.func [] [] (.block [var "y" (.num 1)])), .call (.var "f") [], .var "y"]) = some .undefvar := by
+  decide
+
+/-- `use(x)` captures the value at definition time: `var x = 5; var f = function() use(x) { x }; x = 6; f()` → 5. -/
+theorem scoping_use_captures_at_definition :
+    outNum (run 200 [var "x" (.num 5), var "f" (.func [] ["x"] (.block [.var "x"])), .set (.var "x") .lit (.num 6),
+                     .call (.var "f") []]) = some 5 := by
+  decide
+
+/-- an uncaught `throw` is a script error; inside `try` it is caught and evaluation continues. -/
+example : outErr (run 50 [.throw (.str "boom")]) = some .user := by decide
+example : outNum (run 50 [.try (.block [.throw (.str "boom")]) (.block []), .num 4]) = some 4 := by decide
+
+/-- the spec predicate rejects a crash, a non-deterministic and a parenthesisation-dependent observation. -/
+example : Spec.checkProgram ⟨"crash:sig=8", "crash:sig=8", "crash:sig=8"⟩ = some "no_crash" := by decide
+example : Spec.checkProgram ⟨"v:#1", "v:#1", "v:#2"⟩ = some "deterministic" := by decide
+example : Spec.checkProgram ⟨"v:#1", "v:#2", "v:#1"⟩ = some "precedence_as_declared" := by decide
+example : Spec.checkProgram ⟨"v:#1", "v:#1", "v:#1"⟩ = none := by decide
+
 end Icinga.C15.Proofs
